@@ -30,7 +30,7 @@ CPU_CONFIGS = [None, 'AVX512F AVX512CD AVX512_SKX AVX512_CLX AVX512_CNL AVX512_I
 
 
 def budget(tier):
-	return {'quick': 4000, 'thorough': 100000}[tier]
+	return {'quick': 4000, 'thorough': 30000}[tier]
 
 
 def run_case(case, ctx):
